@@ -11,6 +11,11 @@ import LW.Driver.C18
 import LW.Driver.C17
 import LW.Driver.C19
 import LW.Driver.C10
+import LW.Driver.C15
+import LW.Driver.C16
+import LW.Driver.C13
+import LW.Driver.C12
+import LW.Driver.C14
 
 open Lean LW.Driver
 
@@ -23,7 +28,12 @@ def handlers : List (String × (Json → R Json)) :=
    ("sv", handleC18),
    ("res", handleC17),
    ("display", handleC19),
-   ("c10", LW.Driver.C10.handleC10)]
+   ("c10", LW.Driver.C10.handleC10),
+   ("tomo", handleTomo),
+   ("ptomo", handlePtomo),
+   ("gate", handleC13),
+   ("qconv", handleC12),
+   ("reck", LW.Driver.C14.handleC14)]
 
 def dispatch (req : Json) : R Json := do
   let op ← asStr (← fld req "op")
